@@ -159,8 +159,39 @@ def run(tier: str, seed: int) -> Report:
                             {"kind": c["kind"], "f": c["f"], "constructed_with": c["from"], "observed": {
                                 "pdu": bytes(t["pdu"]["b"]).hex() if t["pdu"]["ok"] else None,
                                 "wire": bytes(t["wire"]["b"]).hex() if t["wire"]["ok"] else None}})
-    rep.traces += len(atraces)
-    rep.evaluations += len(atraces)
+    # ---- 5c. a PARSED request taken as template and edited by its holder (assigned the values of case B): the
+    # edited object must have B's layout, and afterwards the bytes of case A must still parse back to case A
+    ptraces: list[dict[str, Any]] = []
+    pmeta: list[tuple[str, dict[str, Any], dict[str, Any], str]] = []
+    for k, idxs in sorted(by_kind.items()):
+        for n, ib in enumerate(idxs[: 12 if tier == "quick" else 60]):
+            ia = idxs[(n + 1) % len(idxs)]
+            if cases[ia]["f"] == cases[ib]["f"]:
+                continue
+            o = R.parsed_then_assigned(classes[k], k, cases[ia]["f"], cases[ib]["f"])
+            if o is None:
+                continue
+            rec, _nt = R.exec_request(classes[k], k, cases[ib]["f"], obj=o)
+            ptraces.append(rec)
+            pmeta.append((k, cases[ib]["f"], cases[ia]["f"], "parsed-template-edited"))
+            rec2, _nt = R.exec_request(classes[k], k, cases[ia]["f"])
+            ptraces.append(rec2)
+            pmeta.append((k, cases[ia]["f"], cases[ib]["f"], "same-bytes-parsed-again-after-the-edit"))
+    if ptraces:
+        pverd, _, pres = R.validate("Trace_UdsLayoutReq", ptraces, chunk=3000)
+        for res in pres:
+            rep.add_tlc(res, "Trace_UdsLayoutReq batch (parsed templates)")
+        for i, ((k, f, other, path), t) in enumerate(zip(pmeta, ptraces)):
+            for v in pverd[i][2]:
+                if v.startswith("Q") and "wire" in v:
+                    continue  # no client call in this family
+                rep.violate(v, {"kind": classes[k].__name__, "path": path},
+                            {"kind": k, "f": f, "other_case": other, "observed": {
+                                "pdu": bytes(t["pdu"]["b"]).hex() if t["pdu"]["ok"] else None,
+                                "dyn": t["dyn"]}})
+    rep.traces += len(atraces) + len(ptraces)
+    rep.evaluations += len(atraces) + len(ptraces)
+    rep.extra["parsed_template_cases"] = len(ptraces)
     rep.extra["reused_object_cases"] = len(atraces)
     rep.extra["kinds_with_assignable_fields"] = len({c["kind"] for c in acases})
     rep.exhaustive = True
